@@ -270,6 +270,9 @@ class Replayer:
         if key in self.built:
             return self.built[key]
         d = os.path.join(self.scratch, "crate-" + mode)
+        if not os.path.isdir(d):
+            os.makedirs(d)
+            gen.generate(d, mode, load_known())
         env = dict(ENV)
         env["RUSTFLAGS"] = "--cfg verif_replay -Awarnings"
         if mode == "vshim":
@@ -345,19 +348,21 @@ def run_property(pid, tier="quick", seed=0):
     scratch = tempfile.mkdtemp(prefix="basic-verif-%s-" % pid)
     known = load_known()
     try:
-        modes = sorted(set(h["mode"] for h in hs))
         digests = {}
-        for mode in modes:
-            d = os.path.join(scratch, "crate-" + mode)
-            os.makedirs(d)
-            digests.update(gen.generate(d, mode, known))
+        for h in hs:
+            h["crate"] = "crate-" + h["mode"] + ("" if gen.caps_key(h.get("caps")) == "default" else "-" + gen.caps_key(h.get("caps")))
+            d = os.path.join(scratch, h["crate"])
+            if not os.path.isdir(d):
+                os.makedirs(d)
+                digests.update(gen.generate(d, h["mode"], known, h.get("caps")))
         cap = QUICK_CAP if tier == "quick" else THOROUGH_CAP
         infos = []
         with ThreadPoolExecutor(max_workers=JOBS) as ex:
-            futs = [ex.submit(verify_one, h, os.path.join(scratch, "crate-" + h["mode"]), scratch, cap) for h in hs]
+            futs = [ex.submit(verify_one, h, os.path.join(scratch, h["crate"]), scratch, cap) for h in hs]
             for h, f in zip(hs, futs):
                 info = f.result()
-                for k in ("encodes", "bounds", "stubs", "outside", "kind"):
+                info["crate"] = h["crate"]
+                for k in ("encodes", "bounds", "stubs", "outside", "kind", "caps"):
                     if k in h:
                         info[k] = h[k]
                 infos.append(info)
@@ -376,7 +381,7 @@ def run_property(pid, tier="quick", seed=0):
                     # typical harness the playback run is one or two solver calls instead of one per check
                     extra += ["--no-memory-safety-checks", "--no-undefined-function-checks"]
                 pcmd = [c for c in kani_cmd(h, info["_tdir"], extra) if c != "--verbose" or h.get("verbose") != "off"]
-                rc2, out2, to2, _ = run_limited(pcmd, os.path.join(scratch, "crate-" + h["mode"]), max(cap, 1200), logp2,
+                rc2, out2, to2, _ = run_limited(pcmd, os.path.join(scratch, h["crate"]), max(cap, 1200), logp2,
                                                 mem_gb=PLAYBACK_MEM_GB)
                 info["counterexamples"] = parse_playback(out2)
                 if not info["counterexamples"]:
